@@ -356,9 +356,15 @@ fn dec_value(bytes: &[u8], idx: &mut usize) -> Result<Value> {
             21 => Ok(Value::Bool(true)),
             22 => Ok(Value::Null),
             25 => {
+                need(bytes, *idx, 2)?;
+                let raw = u16::from_be_bytes([bytes[*idx], bytes[*idx + 1]]);
                 let f = read_f(bytes, idx, 2)?;
                 if is_exact_int(f) {
                     return Err(CanonError::FloatShouldBeInt);
+                }
+                // NaN has exactly one canonical encoding: the quiet NaN the encoder emits.
+                if f.is_nan() && raw != f16::NAN.to_bits() {
+                    return Err(CanonError::NonCanonicalFloat);
                 }
                 Ok(Value::Float(f))
             }
